@@ -175,6 +175,8 @@ def build_fm(m, mode=None):
         return live.build_detour(m, h, lambda s: build_fm_plain(s, True))
     if mode == live.FILL:
         return build_fm_plain(m, False, True)
+    if mode == live.GHOST:
+        return live.build_ghost(m, h, lambda s: build_fm_plain(s))
     return build_fm_plain(m)
 
 
@@ -310,6 +312,11 @@ def same_shape_variant(m, rng):
                 r["min"], r["max"] = lo, rng.randint(max(lo, 1), k)
     names = [f["name"] for f in spec_features(b["root"])]
     for i, (nm, node) in enumerate(b["ctcs"]):
-        a, c = rng.choice(names), rng.choice(names)
-        b["ctcs"][i] = (nm, OP(rng.choice(["IMPLIES", "EXCLUDES", "OR"]), T(a), T(c)))
+        a, c, d = rng.choice(names), rng.choice(names), rng.choice(names)
+        # simple, pseudo-complex (splits into simple ones) and strict-complex formulas: an edit moves a constraint
+        # from one class to another
+        b["ctcs"][i] = (nm, rng.choice([
+            OP("IMPLIES", T(a), T(c)), OP("EXCLUDES", T(a), T(c)), OP("OR", T(a), T(c)), OP("REQUIRES", T(a), T(c)),
+            OP("IMPLIES", T(a), OP("AND", T(c), T(d))), OP("IMPLIES", T(a), OP("OR", T(c), T(d))),
+            OP("AND", OP("IMPLIES", T(a), T(c)), OP("EXCLUDES", T(c), T(d))), OP("EQUIVALENCE", T(a), OP("NOT", T(d)))]))
     return b
